@@ -45,6 +45,8 @@ type Case struct {
 	Chain int `json:"chain,omitempty"`
 	// Up: the chain hangs the other way round: the first new table references the kept table.
 	Up bool `json:"up,omitempty"`
+	// Fold: the table names differ in letter case only, pairwise (T0, t0, T1, ...): distinct tables.
+	Fold bool `json:"fold,omitempty"`
 }
 
 func (c Case) two() bool { return c.Schemas >= 2 }
@@ -77,6 +79,9 @@ func (c Case) tn(i int) string {
 	if c.two() {
 		return fmt.Sprintf("t%d", i/2)
 	}
+	if c.Fold {
+		return fmt.Sprintf("%c%d", "Tt"[i%2], i/2)
+	}
 	return tname(i)
 }
 
@@ -84,7 +89,7 @@ func (c Case) tid(i int) string {
 	if c.two() {
 		return c.sname(i) + "." + c.tn(i)
 	}
-	return tname(i)
+	return c.tn(i)
 }
 
 func tname(i int) string { return fmt.Sprintf("t%d", i) }
@@ -434,7 +439,7 @@ func splits(n int, f func([]int)) {
 
 func Run(r *report.Run) {
 	maxFull := 3
-	r.Rule = "every directed graph with self loops on n tables (n<=3: all 2^(n*n) graphs x all 3^n splits of the tables into kept/created/dropped x 3 modes for edges between kept tables {unchanged, added, dropped} x {MySQL, PostgreSQL; the TiDB planner (MySQL driver on a mocked TiDB connection) in the default plan mode} x plan mode {unset, deferred, in-place, dump}, for n<=3 also with the kept tables' foreign keys retargeted (ModifyForeignKey) and with every kept table losing / gaining an unrelated column in the same change, and for n in 2..3 also with the tables spread over two schemas (in a third layout a schema that loses all its tables is dropped) so that tables of different schemas share a name (realm diff, schema-qualified statements); plus, for the three planners, 4096 large change sets on 5 tables (four kept tables gaining a column and a foreign key to a new table, and every subset of the 12 possible new foreign keys between them) and chains / rings of 1..16 new tables hanging off (or holding) a kept table; thorough adds n=4: all 65536 graphs x all 81 splits with kept-kept edges added, x 2 dialects, plan mode unset); changes from the real differ, plans from the real planners, every change set planned twice (identical plans required); each plan's statements are replayed from their text by a reference catalogue of existing tables and live foreign keys; non-trivial = case with a non-empty plan; distinct by construction"
+	r.Rule = "every directed graph with self loops on n tables (n<=3: all 2^(n*n) graphs x all 3^n splits of the tables into kept/created/dropped x 3 modes for edges between kept tables {unchanged, added, dropped} x {MySQL, PostgreSQL; the TiDB planner (MySQL driver on a mocked TiDB connection) in the default plan mode} x plan mode {unset, deferred, in-place, dump}, for n<=3 also with the kept tables' foreign keys retargeted (ModifyForeignKey) and with every kept table losing / gaining an unrelated column in the same change, and for n in 2..3 also with the tables spread over two schemas (in a third layout a schema that loses all its tables is dropped) so that tables of different schemas share a name (realm diff, schema-qualified statements), and for n in 2..3 also with table names that differ in letter case only (T0, t0, T1); plus, for the three planners, 4096 large change sets on 5 tables (four kept tables gaining a column and a foreign key to a new table, and every subset of the 12 possible new foreign keys between them) and chains / rings of 1..16 new tables hanging off (or holding) a kept table; thorough adds n=4: all 65536 graphs x all 81 splits with kept-kept edges added, x 2 dialects, plan mode unset); changes from the real differ, plans from the real planners, every change set planned twice (identical plans required); each plan's statements are replayed from their text by a reference catalogue of existing tables and live foreign keys; non-trivial = case with a non-empty plan; distinct by construction"
 	r.Assumptions = []string{
 		"statement text is parsed by regular expressions over names the generator chose (t<i>, fk_<i>_<j>)",
 		"random larger graphs are not claimed (sampling is a different family)",
@@ -519,20 +524,25 @@ func Run(r *report.Run) {
 									if cols != 0 && (rt || mi != 0 || j.n > 3 || nk == 0 || lay != 0) {
 										continue
 									}
-									c := Case{N: j.n, Graph: j.graph, Split: append([]int(nil), sp...), KK: kk, Dialect: d, Mode: m, Schemas: lay, Retarget: rt, Cols: cols}
-									key := fmt.Sprintf("%d-%v", w, c)
-									cur.Store(key, time.Now())
-									problems, stmts := Eval(c)
-									cur.Delete(key)
-									plans.Add(1)
-									if len(stmts) > 0 {
-										nonEmpty.Add(1)
-									}
-									if len(problems) > 0 {
-										r.Violate(classify(c, problems), fmt.Sprintf("n=%d graph=%s split=%v kk=%d retarget=%v cols=%d %s mode=%d schemas=%d: %s\n    plan: %s", c.N, edges(c), c.Split, c.KK, c.Retarget, c.Cols, c.Dialect, c.Mode, c.Schemas, strings.Join(problems, " | "), strings.Join(stmts, ";\n          ")), c)
-									}
-									if j.n == 3 && j.graph == 0b010001100 && kk == 1 && d == "postgres" && m == 0 && sp[0] == 0 && sp[1] == 1 && sp[2] == 2 && !c.Retarget && c.Cols == 0 && c.Schemas == 0 {
-										r.Sample(map[string]any{"case": c, "edges": edges(c), "plan": stmts})
+									for _, fold := range []bool{false, true} {
+										if fold && (cols != 0 || rt || lay != 0 || mi != 0 || j.n < 2 || j.n > 3) {
+											continue
+										}
+										c := Case{N: j.n, Graph: j.graph, Split: append([]int(nil), sp...), KK: kk, Dialect: d, Mode: m, Schemas: lay, Retarget: rt, Cols: cols, Fold: fold}
+										key := fmt.Sprintf("%d-%v", w, c)
+										cur.Store(key, time.Now())
+										problems, stmts := Eval(c)
+										cur.Delete(key)
+										plans.Add(1)
+										if len(stmts) > 0 {
+											nonEmpty.Add(1)
+										}
+										if len(problems) > 0 {
+											r.Violate(classify(c, problems), fmt.Sprintf("n=%d graph=%s split=%v kk=%d retarget=%v cols=%d %s mode=%d schemas=%d fold=%v: %s\n    plan: %s", c.N, edges(c), c.Split, c.KK, c.Retarget, c.Cols, c.Dialect, c.Mode, c.Schemas, c.Fold, strings.Join(problems, " | "), strings.Join(stmts, ";\n          ")), c)
+										}
+										if j.n == 3 && j.graph == 0b010001100 && kk == 1 && d == "postgres" && m == 0 && sp[0] == 0 && sp[1] == 1 && sp[2] == 2 && !c.Retarget && c.Cols == 0 && c.Schemas == 0 {
+											r.Sample(map[string]any{"case": c, "edges": edges(c), "plan": stmts})
+										}
 									}
 								}
 							}
